@@ -425,11 +425,10 @@ class SimFS:
         prefix = rel.rstrip(os.sep) + os.sep
         if rel in (".", "") or any(f.startswith(prefix) for f in self.files):
             return self._real["stat"](self.root)
-        try:
-            return self._real["stat"](path, *a, **k)  # a real stray file (seam bypass)
-        except FileNotFoundError:
-            self.log.add("fs", "stat", rel, "ENOENT")
-            raise
+        # not a simulated file: a real stray file (seam bypass) or nothing at all.  Not
+        # logged: libraries probe the working directory on first import (matplotlibrc),
+        # which would make the log depend on what the process did before this run.
+        return self._real["stat"](path, *a, **k)
 
     def listdir(self, path="."):
         rel = self.rel(path)
